@@ -17,6 +17,7 @@ Data files that were rolled over since the last `sync_all` are assumed complete 
 data files are intact).
 -/
 import CkbVerif.Lemmas.FreezeSys
+import CkbVerif.Lemmas.FreezeEq
 import CkbVerif.Lemmas.FreezeCodec
 import CkbVerif.Lemmas.FreezeStart
 import CkbVerif.Props.C09
@@ -242,6 +243,99 @@ theorem pass_removes_only_side_blocks_at_frozen_heights (k : Codec) (ok : k.Ok) 
       simp only [List.length_append]
       omega
 
+/-! ### C10.F5 — the combined `pass` IS the abstract `freeze` (the function the driver answers with) -/
+
+/-- **`pass` = `freeze`.**  In every combined state satisfying the invariant (the files hold `chain`),
+one whole pass of `Shared::freeze` on rows + FILES in the order of the Rust code (threshold from the
+epoch rows and `freezer.number()` read from the files, `Freezer::freeze`'s append loop on the files
+with its `thr - number` iterations, `sync_all`, body batch and side batch computed from the RETURNED
+MAP) and one `freeze` of the abstract model (`Model/Freeze.lean`, rows + list, its own loop with the
+`n ≥ thr` test, side scan on the frozen blocks' own numbers) agree: same result code
+(`ok / idle / err / panic`), same rows afterwards (header flags, body flags, NUMBER_HASH rows, chain
+view — `abs` only replaces the unread `frozen` field), and the files afterwards hold exactly the
+abstract model's list of frozen blocks.  So the driver's MODEL-SPLIT comparison of the two can never
+fire on a state the invariant holds in; and every theorem of `Props/C10.lean` about `freeze` is
+a theorem about `pass`. -/
+theorem pass_eq_freeze (k : Codec) (s : Sys) (chain : List Block) (h : SysInv k s chain) :
+    (pass k s FreezerTop.noStop).2 = (freeze (abs s.rows chain)).2 ∧
+    abs (pass k s FreezerTop.noStop).1.rows (freeze (abs s.rows chain)).1.frozen
+      = (freeze (abs s.rows chain)).1 ∧
+    FreezerTop.TopInv k.cfg (pass k s FreezerTop.noStop).1.top
+      ((freeze (abs s.rows chain)).1.frozen.map (up k)) :=
+  pass_eq_freeze_core h
+
+/-- consequently EVERY accessor answers EVERY id (main-chain blocks, side blocks — wiped or not —,
+unknown hashes) and every transaction the same in the two models after a pass: the file-reading
+accessors of the combined state (retrieve + decompress + decode, `expect`s as values) equal the
+abstract accessors on the list -/
+theorem pass_answers_eq_freeze_answers (k : Codec) (ok : k.Ok) (s : Sys) (chain : List Block)
+    (h : SysInv k s chain) (id tx n : Nat) :
+    getBlockS k (pass k s FreezerTop.noStop).1 id = getBlock (freeze (abs s.rows chain)).1 id ∧
+    getPackedS k (pass k s FreezerTop.noStop).1 id = ofOpt (getPacked (freeze (abs s.rows chain)).1 id) ∧
+    getPartS k (pass k s FreezerTop.noStop).1 id = ofOpt (getPart (freeze (abs s.rows chain)).1 id) ∧
+    getHeaderS (pass k s FreezerTop.noStop).1 id = getHeader (freeze (abs s.rows chain)).1 id ∧
+    getAncestorS (pass k s FreezerTop.noStop).1 n = getAncestor (freeze (abs s.rows chain)).1 n ∧
+    getTxS k (pass k s FreezerTop.noStop).1 tx = ofOpt (getTx (freeze (abs s.rows chain)).1 tx) := by
+  obtain ⟨_, heq, hfiles⟩ := pass_eq_freeze_core h
+  have ha := agree_files ok hfiles
+  generalize (pass k s FreezerTop.noStop).1 = p at heq hfiles ha ⊢
+  generalize (freeze (abs s.rows chain)).1 = a at heq hfiles ha ⊢
+  refine ⟨?_, ?_, ?_, ?_, ?_, ?_⟩
+  · unfold getBlockS Sys.fz
+    rw [getBlockG_agree ha]
+    have e : getBlockG p.rows (fzOfList a.frozen) id
+        = getBlockG (abs p.rows a.frozen) (fzOfList (abs p.rows a.frozen).frozen) id := rfl
+    rw [e, getBlockG_list, heq]
+  · unfold getPackedS Sys.fz
+    rw [getPackedG_agree ha]
+    have e : getPackedG p.rows (fzOfList a.frozen) id
+        = getPackedG (abs p.rows a.frozen) (fzOfList (abs p.rows a.frozen).frozen) id := rfl
+    rw [e, getPackedG_list, heq]
+  · unfold getPartS Sys.fz
+    rw [getPartG_agree ha]
+    have e : getPartG p.rows (fzOfList a.frozen) id
+        = getPartG (abs p.rows a.frozen) (fzOfList (abs p.rows a.frozen).frozen) id := rfl
+    rw [e, getPartG_list, heq]
+  · have e : getHeaderS p id = getHeader (abs p.rows a.frozen) id := rfl
+    rw [e, heq]
+  · have e : getAncestorS p n = getAncestor (abs p.rows a.frozen) n := rfl
+    rw [e, heq]
+  · unfold getTxS Sys.fz
+    rw [getTxG_agree ha]
+    have e : getTxG p.rows (fzOfList a.frozen) tx
+        = getTxG (abs p.rows a.frozen) (fzOfList (abs p.rows a.frozen).frozen) tx := rfl
+    rw [e, getTxG_list, heq]
+
+/-- the same along a whole history: if the two models are in step (the files hold the abstract list,
+same rows), they are in step after a pass — the induction step of "the driver's two models never
+split" (chain-service steps act on the rows only, which both models share) -/
+theorem pass_keeps_models_in_step (k : Codec) (ok : k.Ok) (s : Sys) (a : FS) (h : SysInv k s a.frozen)
+    (hrows : abs s.rows a.frozen = a) :
+    (pass k s FreezerTop.noStop).2 = (freeze a).2 ∧
+    abs (pass k s FreezerTop.noStop).1.rows (freeze a).1.frozen = (freeze a).1 ∧
+    ∃ chain', SysInv k (pass k s FreezerTop.noStop).1 chain' ∧ chain' = (freeze a).1.frozen := by
+  obtain ⟨h1, h2, h3⟩ := pass_eq_freeze_core h
+  rw [hrows] at h1 h2 h3
+  refine ⟨h1, h2, ?_⟩
+  obtain ⟨chain', hi, _⟩ := fileSteps_inv ok h (pass_is_fileSteps ok h FreezerTop.noStop).1
+  refine ⟨chain', hi, ?_⟩
+  -- both lists are what the same files hold
+  apply List.ext_getElem?
+  intro i
+  have r1 := readFrozen_chain ok hi.files (i + 1) (by omega)
+  have r2 := readFrozen_chain ok h3 (i + 1) (by omega)
+  rw [r1] at r2
+  simp only [Nat.add_sub_cancel] at r2
+  cases e1 : chain'[i]? with
+  | none =>
+    cases e2 : (freeze a).1.frozen[i]? with
+    | none => rfl
+    | some b => rw [e1, e2] at r2; cases r2
+  | some x =>
+    cases e2 : (freeze a).1.frozen[i]? with
+    | none => rw [e1, e2] at r2; cases r2
+    | some b => rw [e1, e2] at r2; cases r2; rfl
+
 /-! ### C10.F4 — chain-service steps interleaved, from a fresh node with an empty freezer directory -/
 
 /-- combined states reachable from a fresh node: the rows of the replay of any well-formed chain,
@@ -334,5 +428,15 @@ example : SysReach demoCodec ⟨startState (replay [Witness.g]) [0], top0, 1⟩ 
         have : top0 = t := by unfold top0; rw [ht]; rfl
         rw [this]; exact ht)
   exact ⟨hr, sysInv_reachable demoCodec demoCodec_ok hr⟩
+
+open FilesWitness Witness FreezeSys.Demo in
+/-- non-vacuity of `pass_eq_freeze` on the witness chain: the combined pass and the abstract pass both
+return `ok`, freeze block 1, wipe its rows and remove the side block 11 (both answer `none` for it) -/
+example : (pass demoCodec y0 FreezerTop.noStop).2 = (freeze s0).2 ∧ (freeze s0).2 = .ok ∧
+    (freeze s0).1.frozen = [b1] ∧ (pass demoCodec y0 FreezerTop.noStop).1.top.number = 2 ∧
+    getBlockS demoCodec (pass demoCodec y0 FreezerTop.noStop).1 11 = getBlock (freeze s0).1 11 ∧
+    getBlock (freeze s0).1 11 = .none ∧ getBlock s0 11 ≠ .none ∧
+    (pass demoCodec y0 FreezerTop.noStop).1.rows.stored = (freeze s0).1.stored := by
+  decide +kernel
 
 end CkbVerif.C10
